@@ -182,6 +182,13 @@ afterPublish:
 		st.called = map[string]string{}
 	}
 	st.called[name] = "true"
+	if len(args) > 0 {
+		// ghost: the arguments of the most recent call to this callee (as a tuple), read by arg("name", k)
+		if st.lastRes == nil {
+			st.lastRes = map[string]*Val{}
+		}
+		st.lastRes["args:"+name] = &Val{Sort: "Tuple", Tup: args}
+	}
 
 	fn := cc.StaticCallee()
 	var fc *FuncContract
@@ -291,12 +298,17 @@ afterPublish:
 			}
 			pvals = np
 		}
+		pkey := calleeKey(cc, fn)
+		if suffix, ex, ok := e.expandVariadic(st, sig, pvals); ok {
+			pkey += suffix
+			pvals = ex
+		}
 		var ts []string
 		for _, a := range pvals {
 			ts = append(ts, e.term(a))
 		}
 		mk := func(i int, ty types.Type) *Val {
-			sym, rs := e.pureSym(calleeKey(cc, fn), pvals, ty, i)
+			sym, rs := e.pureSym(pkey, pvals, ty, i)
 			t := sym
 			if len(ts) > 0 {
 				t = "(" + sym + " " + strings.Join(ts, " ") + ")"
@@ -571,4 +583,34 @@ func (e *FEnc) calleeContract(cc *ssa.CallCommon) *FuncContract {
 		return e.eng.contractOf(fn)
 	}
 	return nil
+}
+
+// expandVariadic: a pure variadic function is a function of the elements of its variadic slice when that
+// slice is a literal built at the call site (or absent); the symbol is then indexed by the element count.
+func (e *FEnc) expandVariadic(st *State, sig *types.Signature, vals []*Val) (string, []*Val, bool) {
+	if sig == nil || !sig.Variadic() || len(vals) == 0 {
+		return "", nil, false
+	}
+	last := vals[len(vals)-1]
+	if last == nil || last.Sort != "Slice" {
+		return "", nil, false
+	}
+	if last.T == "(mk_slice nil_ref 0 0 0)" {
+		return "_v0", vals[:len(vals)-1], true
+	}
+	if last.Box != nil && last.Box.P != nil && last.Box.P.Root == rLocal {
+		id := last.Box.P.Alloc
+		a := e.allocs[id]
+		at, ok := a.Ty.Underlying().(*types.Array)
+		cell, has := st.cells[id]
+		if !ok || !has || a.Weak || at.Len() > 8 {
+			return "", nil, false
+		}
+		out := append([]*Val{}, vals[:len(vals)-1]...)
+		for i := int64(0); i < at.Len(); i++ {
+			out = append(out, e.project(cell, []PathEl{{Field: -1, Index: fmt.Sprint(i)}}))
+		}
+		return fmt.Sprintf("_v%d", at.Len()), out, true
+	}
+	return "", nil, false
 }
